@@ -98,7 +98,8 @@ def check_history(case):
                     di = o['doc'] % len(docs)
                     if tmpdir is None:
                         tmpdir = tempfile.mkdtemp(prefix='vf_c16_')
-                    path = os.path.join(tmpdir, f'd{step}.json')
+                    # only two file names per history: the same path is loaded again with other contents
+                    path = os.path.join(tmpdir, f'slot{(o["p"] + o["doc"]) % 2}.json')
                     with open(path, 'wb') as fh:
                         fh.write(docs[di])
                     r = p[0].load_file(path)
